@@ -239,8 +239,8 @@ def impl_complement(table_texts, lattice_ids, target):
 
 KNOWN_WITNESSES = {
     # class -> (text, expected defect outcome)
-    'complement_of_cell_inside_hash_paren': ('#(-2 #1)', ('err', 'EAttribute')),
-    'complement_right_after_colon': ('1:#2', ('err', 'EParse')),
+    'nested_complement_of_cellref': ('#(-2 #1)', ('err', 'EAttribute')),
+    'complement_after_colon': ('1:#2', ('err', 'EParse')),
 }
 
 
@@ -248,9 +248,9 @@ def classify(e):
     '''known-finding class of an abstract expression the implementation
     cannot parse, or None'''
     if has_cell_under_not(e):
-        return 'complement_of_cell_inside_hash_paren'
+        return 'nested_complement_of_cellref'
     if has_colon_hash(e):
-        return 'complement_right_after_colon'
+        return 'complement_after_colon'
     return None
 
 
